@@ -903,6 +903,11 @@ def compare_xformS(cases, res):
         if has_atom(w, STMT_OUTSIDE):
             res.count('xformS:outside-syntax')
             continue
+        if has_annotation(w):
+            # PEP 695 type parameter lists (known finding C13-type-params): not part of the model, and
+            # symtable gives them an annotation scope of their own
+            res.count('xformS:type-params')
+            continue
         if len(c['src']) > 6000:
             res.count('xformS:skipped-large')       # (a whole stdlib class: the cost is in the wire coding)
             continue
